@@ -215,12 +215,189 @@ mod rng {
     }
 }
 
+// ---------------------------------------------------------------- response serialiser (C03, C05, C09, C15)
+mod resp {
+    use super::*;
+    use crate::header::Header;
+    use crate::range::{ContentRange, Range};
+    use crate::request::Request;
+    use crate::response::Response;
+
+    fn part(rng: &mut Rng, binary: bool) -> ContentRange {
+        let n = rng.below(40) as usize;
+        let body: Vec<u8> = (0..n).map(|_| if binary { rng.next() as u8 } else { b'a' + (rng.below(26) as u8) }).collect();
+        let start = rng.below(1000);
+        ContentRange { unit: "bytes".to_string(), range: Range { start, end: start + n as u64 }, size: (5000 + rng.below(100)).to_string(), body, content_type: "text/plain".to_string() }
+    }
+    // independent rendering of the message (RFC 9112 2.1, RFC 9110 14.6)
+    pub fn reference(r: &Response, method: &str) -> Vec<u8> {
+        let mut headers: Vec<(String, String)> = r.headers.iter().map(|h| (h.name.clone(), h.value.clone())).collect();
+        let l = &r.content_range_list;
+        let mut body: Vec<u8> = vec![];
+        if l.len() == 1 {
+            headers.push(("Content-Type".into(), l[0].content_type.clone()));
+            headers.push(("Content-Range".into(), format!("bytes {}-{}/{}", l[0].range.start, l[0].range.end, l[0].size)));
+            headers.push(("Content-Length".into(), l[0].body.len().to_string()));
+            body = l[0].body.clone();
+        } else if l.len() > 1 {
+            headers.push(("Content-Type".into(), "multipart/byteranges; boundary=String_separator".into()));
+            for (i, p) in l.iter().enumerate() {
+                if i != 0 { body.extend(b"\r\n"); }
+                body.extend(format!("--String_separator\r\nContent-Type:  {}\r\nContent-Range:  bytes {}-{}/{}\r\n\r\n", p.content_type, p.range.start, p.range.end, p.size).as_bytes());
+                body.extend(&p.body);
+            }
+            body.extend(b"\r\n--String_separator");
+        }
+        let mut out = format!("{} {} {}\r\n", r.http_version, r.status_code, r.reason_phrase).into_bytes();
+        for (n, v) in headers { out.extend(format!("{}: {}\r\n", n, v).as_bytes()); }
+        out.extend(b"\r\n");
+        if method != "HEAD" && method != "OPTIONS" { out.extend(body); }
+        out
+    }
+    pub fn case(seed: u64) -> (Response, String) {
+        let mut rng = Rng(seed.wrapping_mul(2654435761) | 1);
+        let nparts = rng.below(4) as usize;
+        let binary = rng.below(2) == 0;
+        let list: Vec<ContentRange> = (0..nparts).map(|_| part(&mut rng, binary)).collect();
+        let nh = rng.below(4) as usize;
+        let headers: Vec<Header> = (0..nh).map(|i| Header { name: format!("X-H{}", i), value: format!("v{}", rng.below(100)) }).collect();
+        let codes = [(200i16, "OK"), (206, "Partial Content"), (404, "Not Found"), (416, "Range Not Satisfiable"), (204, "No Content")];
+        let (c, p) = codes[rng.below(5) as usize];
+        let methods = ["GET", "HEAD", "OPTIONS", "POST", "get"];
+        let m = methods[rng.below(5) as usize].to_string();
+        (Response { http_version: "HTTP/1.1".into(), status_code: c, reason_phrase: p.into(), headers, content_range_list: list }, m)
+    }
+    pub fn check(seed: u64) -> Option<String> {
+        let (r, m) = case(seed);
+        let want = reference(&r, &m);
+        let req = Request { method: m.clone(), request_uri: "/".into(), http_version: "HTTP/1.1".into(), headers: vec![], body: vec![] };
+        let r2 = r.clone();
+        let got = panic::catch_unwind(move || Response::generate_response(r2, req));
+        match got {
+            Err(_) => Some("panic".into()),
+            Ok(g) => if g != want { Some(format!("method {} parts {}: got {} bytes {:?}.. expected {} bytes {:?}..", m, r.content_range_list.len(), g.len(), String::from_utf8_lossy(&g[..g.len().min(120)]), want.len(), String::from_utf8_lossy(&want[..want.len().min(120)]))) } else { None },
+        }
+    }
+    pub fn search(seed: u64) -> bool {
+        let mut h = Hits::new();
+        for i in 0..3000u64 {
+            if let Some(o) = check(seed.wrapping_add(i)) { h.hit("response", "generate_response", "Response::generate_response", &seed.wrapping_add(i).to_string(), &o); break; }
+        }
+        h.n > 0
+    }
+    pub fn replay(_case: &str, input: &str) -> bool {
+        if let Some(o) = check(input.parse().unwrap()) { report("response", "generate_response", "", input, &o); true } else { false }
+    }
+}
+
+// ---------------------------------------------------------------- CORS (C11)
+mod cors {
+    use super::*;
+    use crate::cors::Cors;
+    use crate::header::Header;
+    use crate::request::Request;
+
+    fn hv(hs: &Vec<Header>) -> Vec<(String, String)> { hs.iter().map(|h| (h.name.clone(), h.value.clone())).collect() }
+    fn find<'a>(req: &'a Request, n: &str) -> Option<&'a Header> { req.headers.iter().find(|h| h.name.to_lowercase() == n.to_lowercase()) }
+
+    fn grants(origin: &str, creds: bool, options: bool, m: Option<String>, h: Option<String>, e: Option<String>, a: Option<String>) -> Vec<(String, String)> {
+        let mut v = vec![("Access-Control-Allow-Origin".to_string(), origin.to_string())];
+        if creds { v.push(("Access-Control-Allow-Credentials".into(), "true".into())); }
+        if options {
+            if let Some(m) = m { v.push(("Access-Control-Allow-Methods".into(), m)); }
+            if let Some(h) = h { v.push(("Access-Control-Allow-Headers".into(), h.to_lowercase())); }
+            if let Some(e) = e { v.push(("Access-Control-Expose-Headers".into(), e.to_lowercase())); }
+            if let Some(a) = a { v.push(("Access-Control-Max-Age".into(), a)); }
+        }
+        v
+    }
+    pub struct Case { pub switch: Option<&'static str>, pub origins: Vec<&'static str>, pub methods: &'static str, pub headers: &'static str, pub expose: &'static str,
+                      pub creds: bool, pub max_age: &'static str, pub origin: Option<&'static str>, pub method: &'static str, pub preflight: bool }
+    pub fn cases() -> Vec<Case> {
+        let mut out = vec![];
+        let origin_sets: Vec<Vec<&'static str>> = vec![vec![], vec!["https://foo.example"], vec!["https://foo.example", "https://bar.example:8443"]];
+        let origins: Vec<Option<&'static str>> = vec![None, Some("https://foo.example"), Some("https://bar.example:8443"), Some("https://foo.exampl"), Some("ttps://foo.example"),
+            Some("foo"), Some(""), Some("https://foo.example,https://bar.example:8443"), Some("HTTPS://FOO.EXAMPLE"), Some("https://foo.example.evil.com"),
+            Some("https://bar.example"), Some("https://evil.example"), Some(",")];
+        for switch in [Some("false"), Some("true"), None, Some("junk")] {
+            for os in &origin_sets { for o in &origins { for method in ["GET", "OPTIONS", "options", "POST"] { for creds in [true, false] { for preflight in [true, false] {
+                out.push(Case { switch, origins: os.clone(), methods: "GET,POST,PUT", headers: "Content-Type,X-Custom", expose: "X-Exposed,ETag", creds, max_age: "600", origin: *o, method, preflight });
+            } } } } }
+        }
+        out
+    }
+    fn request(c: &Case) -> Request {
+        let mut headers = vec![Header { name: "Host".into(), value: "localhost".into() }];
+        if let Some(o) = c.origin { headers.push(Header { name: "oRiGin".into(), value: o.into() }); }
+        if c.preflight {
+            headers.push(Header { name: "Access-Control-Request-Method".into(), value: "PUT".into() });
+            headers.push(Header { name: "Access-Control-Request-Headers".into(), value: "X-Asked, Content-Type".into() });
+        }
+        Request { method: c.method.into(), request_uri: "/".into(), http_version: "HTTP/1.1".into(), headers, body: vec![] }
+    }
+    // (a) _process with an explicit configuration   (b) get_headers with the configuration in the environment
+    pub fn check(c: &Case) -> Option<(String, String)> {
+        let req = request(c);
+        let options = c.method == "OPTIONS";
+        let cors = Cors { allow_all: false, allow_origins: c.origins.iter().map(|s| s.to_string()).collect(), allow_methods: c.methods.split(',').map(|s| s.to_string()).collect(),
+            allow_headers: c.headers.split(',').map(|s| s.to_string()).collect(), allow_credentials: c.creds, expose_headers: c.expose.split(',').map(|s| s.to_string()).collect(), max_age: c.max_age.into() };
+        let allowed = c.origin.map(|o| c.origins.iter().any(|a| *a == o)).unwrap_or(false);
+        let want_off = if allowed { grants(c.origin.unwrap(), c.creds, options, Some(c.methods.into()), Some(c.headers.into()), Some(c.expose.into()), Some(c.max_age.into())) } else { vec![] };
+        let got = panic::catch_unwind(|| Cors::_process(&req, &cors));
+        match got {
+            Err(_) => return Some(("_process".into(), "panic".into())),
+            Ok(Err(_)) => return Some(("_process".into(), "Err".into())),
+            Ok(Ok(hs)) => if hv(&hs) != want_off { return Some(("_process".into(), format!("got {:?} expected {:?}", hv(&hs), want_off))); }
+        }
+        // environment variant
+        std::env::set_var("RWS_CONFIG_CORS_ALLOW_ORIGINS", c.origins.join(","));
+        std::env::set_var("RWS_CONFIG_CORS_ALLOW_METHODS", c.methods);
+        std::env::set_var("RWS_CONFIG_CORS_ALLOW_HEADERS", c.headers);
+        std::env::set_var("RWS_CONFIG_CORS_EXPOSE_HEADERS", c.expose);
+        std::env::set_var("RWS_CONFIG_CORS_ALLOW_CREDENTIALS", if c.creds { "true" } else { "false" });
+        std::env::set_var("RWS_CONFIG_CORS_MAX_AGE", c.max_age);
+        match c.switch { Some(v) => std::env::set_var("RWS_CONFIG_CORS_ALLOW_ALL", v), None => std::env::remove_var("RWS_CONFIG_CORS_ALLOW_ALL") }
+        let env_allowed = c.origin.map(|o| !o.is_empty() && c.origins.iter().any(|a| *a == o)).unwrap_or(false);
+        let want = if c.switch == Some("false") {
+            if env_allowed { grants(c.origin.unwrap(), c.creds, options, Some(c.methods.into()), Some(c.headers.into()), Some(c.expose.into()), Some(c.max_age.into())) } else { vec![] }
+        } else {
+            match c.origin { None => vec![], Some(o) => {
+                let m = find(&req, "Access-Control-Request-Method").map(|h| h.value.clone());
+                let h = find(&req, "Access-Control-Request-Headers").map(|h| h.value.clone());
+                grants(o, true, options, m, h.clone(), h, Some("86400".into())) } }
+        };
+        let got = panic::catch_unwind(|| Cors::get_headers(&req));
+        match got {
+            Err(_) => Some(("get_headers".into(), "panic".into())),
+            Ok(hs) => if hv(&hs) != want { Some(("get_headers".into(), format!("got {:?} expected {:?}", hv(&hs), want))) } else { None },
+        }
+    }
+    fn describe(c: &Case) -> String { format!("switch={:?} origins={:?} creds={} Origin={:?} method={} preflight={}", c.switch, c.origins, c.creds, c.origin, c.method, c.preflight) }
+    pub fn search(_seed: u64) -> bool {
+        let mut h = Hits::new();
+        for (i, c) in cases().iter().enumerate() {
+            if let Some((case, o)) = check(c) { h.hit("cors", &case, "Cors", &i.to_string(), &format!("{} :: {}", describe(c), o)); }
+        }
+        h.n > 0
+    }
+    pub fn replay(case: &str, input: &str) -> bool {
+        let cs = cases();
+        let c = &cs[input.parse::<usize>().unwrap()];
+        if let Some((k, o)) = check(c) { if k == case { report("cors", &k, "", input, &format!("{} :: {}", describe(c), o)); return true; } }
+        false
+    }
+}
+
 pub fn dispatch(args: &[String]) -> i32 {
     panic::set_hook(Box::new(|_| {}));
     if args.len() < 2 { eprintln!("usage: falsify search <routine> <seed> | replay <routine> <case> <input>"); return 2; }
     let found = match (args[0].as_str(), args[1].as_str()) {
         ("search", "base64") => b64::search(args.get(2).and_then(|s| s.parse().ok()).unwrap_or(1)),
         ("replay", "base64") => b64::replay(&args[2], &args[3]),
+        ("search", "response") => resp::search(args.get(2).and_then(|s| s.parse().ok()).unwrap_or(1)),
+        ("replay", "response") => resp::replay(&args[2], &args[3]),
+        ("search", "cors") => cors::search(1),
+        ("replay", "cors") => cors::replay(&args[2], &args[3]),
         ("search", "range") => rng::search(args.get(2).and_then(|s| s.parse().ok()).unwrap_or(1)),
         ("replay", "range") => rng::replay(&args[2], &args[3]),
         _ => { eprintln!("unknown routine"); return 2; }
